@@ -22,7 +22,7 @@ ROOT = os.path.dirname(os.path.dirname(os.path.abspath(__file__)))
 LIB = os.path.join(ROOT, "lib")
 HARNESS = os.path.join(ROOT, "harness")
 PY = os.path.join(ROOT, ".venv", "bin", "python")
-REPO = "/repo"
+REPO = os.environ.get("VERIF_REPO", "/repo")     # development aid: evaluate a scratch worktree (seeded changes) without touching /repo
 NCPU = int(os.environ.get("VERIF_JOBS", "16"))
 SEED = int(os.environ.get("VERIF_SEED", "0") or 0)
 
@@ -97,7 +97,7 @@ def instantiate(template, consts, dest, twin=False):
 
 def _env(work, extra=None, **kw):
     e = dict(os.environ)
-    e["PYTHONPATH"] = LIB + os.pathsep + HARNESS + os.pathsep + work
+    e["PYTHONPATH"] = os.path.join(REPO, "src") + os.pathsep + LIB + os.pathsep + HARNESS + os.pathsep + work
     e["PYTHONHASHSEED"] = "0"
     e["PYTHONWARNINGS"] = "ignore"
     e["XDG_CONFIG_HOME"] = os.path.join(work, "xdg")
